@@ -16,39 +16,39 @@ NA = {
 }
 
 TEXT = {
-    "C02": ("the plumbing around the numeric kernels: typestate analysis (NONE / OK / STALE) of the memoised P matrix over the CFG of every method of REPEX_state with callee summaries (no read of a matrix computed for an earlier weight matrix or busy set, no stale exit of an externally called method, only the getter stores), provenance of the getter's arguments, one busy mask for both axes with zero re-insertion at positions counted from the same mask, the row sort undone through the index that sorted, read window = write window for every kernel call, shape of the permanent formula in permanent_prob (entry, minor, skip condition, per-row rescaling on a copy), index units of the idle block (reduced vs full minus count), quick_prob touching its argument only through shape and zero pattern, sample counting of the Monte-Carlo estimate (initial identity + one matrix per iteration = divisor), exact/sampled dispatch threshold taken on the evaluated block, index guard of the only-[0-]-idle block, non-negative probability budget of the fast kernel (CFG path query), no value derived from the arrangement hoisted above the sweep that mutates it, staircase sort keys read the idle block through its zero pattern only, no integer cast / rounding of weights anywhere in the permanent pipeline",
+    "C02": ("the plumbing around the numeric kernels: typestate analysis (NONE / OK / STALE) of the memoised P matrix over the CFG of every method of REPEX_state with callee summaries (no read of a matrix computed for an earlier weight matrix or busy set, no stale exit of an externally called method, only the getter stores), provenance of the getter's arguments, one busy mask for both axes with zero re-insertion at positions counted from the same mask, the row sort undone through the index that sorted, read window = write window for every kernel call, shape of the permanent formula in permanent_prob (entry, minor, skip condition, per-row rescaling on a copy), index units of the idle block (reduced vs full minus count), quick_prob touching its argument only through shape and zero pattern, sample counting of the Monte-Carlo estimate (initial identity + one matrix per iteration = divisor), exact/sampled dispatch threshold taken on the evaluated block, index guard of the only-[0-]-idle block, non-negative probability budget of the fast kernel (CFG path query), no value derived from the arrangement hoisted above the sweep that mutates it, staircase sort keys read the idle block through its zero pattern only, no integer cast / rounding of weights anywhere in the permanent pipeline, per-path constancy gate in front of the zero-pattern kernel",
             "does not decide that fast_glynn_perm computes the permanent, that quick_prob is the closed form for 0/1 staircases, that find_blocks finds the blocks, random_prob, nor double stochasticity as a numeric fact"),
-    "C10": ("exact finite abstraction of the wire-fencing scan (order parameters touched only through comparisons with the two bounds: 5 regions), abstract interpretation of the loop body over bool / region / affine-integer values giving the implementation's transducer, product with the transducer written from the property text explored to a fixpoint (equal emissions as affine forms at every reachable product state; witness word on a mismatch), shape of the proportional selection law and of the segment layout, weight-vector plumbing of calc_cv_vector / compute_weight, sibling agreement of the (left, right) pair across the three call chains and of the move/interface index shift, interface roles of the zero-swap weight chain, hoisted per-frame reads of the progress coordinate interpreted / flattened order vectors reported",
+    "C10": ("exact finite abstraction of the wire-fencing scan (order parameters touched only through comparisons with the two bounds: 5 regions), abstract interpretation of the loop body over bool / region / affine-integer values giving the implementation's transducer, product with the transducer written from the property text explored to a fixpoint (equal emissions as affine forms at every reachable product state; witness word on a mismatch), shape of the proportional selection law and of the segment layout, weight-vector plumbing of calc_cv_vector / compute_weight, sibling agreement of the (left, right) pair across the three call chains and of the move/interface index shift, interface roles of the zero-swap weight chain, hoisted per-frame reads of the progress coordinate interpreted / flattened order vectors reported, every weight-vector entry computed inside the interface loop, same configuration keys at every call site of calc_cv_vector",
             "does not decide the numeric value of the high-acceptance swap ratio, nor that left < right at run time (assumed; enforced for wf ensembles by check_config)"),
-    "C03": ("lock/ownership discipline on AST+CFG: who-may-write busy flags, checked acquire/release by dominance, acquire-on-all-paths before a job is recorded, zero-swap partner only when idle (case split over contradictory disjuncts), engine claim under a free test on the same slot, one claim call per job, private worker directory provenance, path-number representation (int vs str) inference, whole busy set consulted, no stale loop variables, one engine object per bookable slot (no list replication), partner acquired before the job is recorded, ensemble-index units of the in-flight record, acquires only where the job is recorded (who-may-call), P rows attributed to their paths, memoised P invalidated by every slot permutation, in-flight record paired position by position, path-number counter stored back before the commit (no live number reused after a crash)",
+    "C03": ("lock/ownership discipline on AST+CFG: who-may-write busy flags, checked acquire/release by dominance, acquire-on-all-paths before a job is recorded, zero-swap partner only when idle (case split over contradictory disjuncts), engine claim under a free test on the same slot, one claim call per job, private worker directory provenance, path-number representation (int vs str) inference, whole busy set consulted, no stale loop variables, one engine object per bookable slot (no list replication), partner acquired before the job is recorded, ensemble-index units of the in-flight record, acquires only where the job is recorded (who-may-call), P rows attributed to their paths, memoised P invalidated by every slot permutation, in-flight record paired position by position, path-number counter stored back before the commit (no live number reused after a crash), busy-set accessors return materialised collections, finished job removed by exact membership (pop or rebuild form)",
             "does not decide non-zero weight of the picked path nor the global interleaving invariant as such"),
     "C04": ("accumulator typestate: who-may-write ['frac'], accumulate only under the idle guard after the new path is inserted and before the commit (effect analysis of write_toml), archive exactly once under status ACC with removal from the live table, restart key-set agreement, a restart keeps the persisted data file (configuration provenance), per-step file writes durable before the commit, path numbers never tested by truthiness, P-matrix cache typestate under the recorded weights, busy set covers every path of every in-flight job, busy exactly while a recorded job holds the ensemble, replacement only under the move's acceptance, accumulation loop on every normal path of a completed step",
             "does not decide one unit per idle column (double stochasticity of P)"),
-    "C05": ("path-number counter discipline, re-sort dominates the commit and nothing serialised changes after it, the re-sort and the recording consult the whole busy set in one representation, ensemble-index units, bound guard of the only-[0-]-idle case by linear arithmetic, progress of the re-sort by symbolic evaluation of the partner column over the staircase weight row, normalisation of the Monte-Carlo P matrix by linear counting, no P evaluation reachable after the acquire store, memoised P invalidated by every slot permutation (typestate), non-negative probability budget of the fast kernel, accepted paths carry non-zero own weight (weight plumbing), engines released over the whole occupation table, P rows scattered back to their paths (no zero-weight pick)",
+    "C05": ("path-number counter discipline, re-sort dominates the commit and nothing serialised changes after it, the re-sort and the recording consult the whole busy set in one representation, ensemble-index units, bound guard of the only-[0-]-idle case by linear arithmetic, progress of the re-sort by symbolic evaluation of the partner column over the staircase weight row, normalisation of the Monte-Carlo P matrix by linear counting, no P evaluation reachable after the acquire store, memoised P invalidated by every slot permutation (typestate), non-negative probability budget of the fast kernel, accepted paths carry non-zero own weight (weight plumbing), engines released over the whole occupation table, P rows scattered back to their paths (no zero-weight pick), restart file complete when renamed, zero-swap partner tested idle on its own flag",
             "does not decide existence of a perfect matching in general, termination of sort_trajstate, finiteness of P"),
-    "C06": ("writer/reader key and role agreement for restart.toml and the path files, determinism taint analysis, per-instance mutable state, commit is final, configuration keys under one section path, the weight function called with the same configuration origins at run time and at load, a restart does not rewrite persisted settings, tables emitted from per-run dictionaries in sorted order, no branch on the restart tag of reloaded paths, every step committed, every in-process draw fed from a persisted job stream, live paths never modified by moves (copies to engine sinks), restored spawn counter agrees with the re-issue (no double count), double precision of what is read back",
+    "C06": ("writer/reader key and role agreement for restart.toml and the path files, determinism taint analysis, per-instance mutable state, commit is final, configuration keys under one section path, the weight function called with the same configuration origins at run time and at load, a restart does not rewrite persisted settings, tables emitted from per-run dictionaries in sorted order, no branch on the restart tag of reloaded paths, every step committed, every in-process draw fed from a persisted job stream, live paths never modified by moves (copies to engine sinks), restored spawn counter agrees with the re-issue (no double count), double precision of what is read back, restart file complete when it takes the final name",
             "does not decide byte identity of files nor floating-point equality across a split"),
     "C07": ("stream provenance and randomness effect analysis: seed provenance of every generator construction, spawn-tree shape of stream keys, one-shot restore of the scheduler stream's state only (generator object never replaced per job), spawn counter = job ordinal (who-may-spawn), every draw and stochastic third-party entry point fed from the job stream at call time, streams never parked in instance state, spawn counter as a linear form in completed steps and in-flight jobs (sign of the in-flight coefficient), case-normalised selectors never tested raw (contradiction rule), restored spawn counter agrees with the re-issue, no child from a copied generator, no collapsing operation between draw and seed, seed sequence rebuilt in the constructor for every restart (guard facts)",
             "does not decide statistical independence of NumPy SeedSequence children"),
-    "C08": ("effect-order analysis of the commit protocol on the CFG: store before commit, atomic replace of restart.toml (closed before the rename), every maintained [current] key stored on every path to the dump, writes durable before the commit, deletion operands only from the retirement FIFO under lag and initial-path guards, restart refuses an incomplete tree, idempotence/reconciliation of pre-commit effects, every issuer records its job in one index unit, commit is final, every normal path through the step commits, restart file written only from a re-sorted slot order (CFG path query), in-flight record paired position by position with the job's ensembles, delete queue filled only for replaced paths (dominance), one representation of in-flight path numbers, every ensemble of a re-issued job acquired, no effect of write_toml takes the restart file away from its final name, no commit in the start-up phase while saved jobs wait to be re-issued (call-graph closure)",
+    "C08": ("effect-order analysis of the commit protocol on the CFG: store before commit, atomic replace of restart.toml (closed before the rename), every maintained [current] key stored on every path to the dump, writes durable before the commit, deletion operands only from the retirement FIFO under lag and initial-path guards, restart refuses an incomplete tree, idempotence/reconciliation of pre-commit effects, every issuer records its job in one index unit, commit is final, every normal path through the step commits, restart file written only from a re-sorted slot order (CFG path query), in-flight record paired position by position with the job's ensembles, delete queue filled only for replaced paths (dominance), one representation of in-flight path numbers, every ensemble of a re-issued job acquired, no effect of write_toml takes the restart file away from its final name, no commit in the start-up phase while saved jobs wait to be re-issued (call-graph closure), re-sort condition recomputed from the weight matrix after every swap (CFG path query)",
             "does not decide file-system semantics nor contents of half-written MD trajectory files"),
-    "C09": ("relational return summaries flag<=>status 'ACC', replace-only-on-ACC guards, copy-before-mutate provenance of frames reaching engine sinks, interval arithmetic for the shooting index, comparator-convention table, linear arithmetic on symbolic lengths (truncated extension rejected, Metropolis length budget), extension guards use the ensemble's own interfaces, no dead verdict (liveness), positional role agreement, no stale loop variables, acceptance gates of the shooting move as must-pass-through facts (kick, backward side, forward success, left touch, middle crossing), weight entries with the inclusive crossing convention, no branch on the restart tag, a rejection never returns the input path's stale status (path query over re-bindings and status stores), high-acceptance swap weights pair interfaces and move of one ensemble (monomial ratio), configuration reaches calc_cv_vector unmodified at run_md, decisions on component 0 of the order parameter, frame 0 of an in-process propagation is the starting phase point for every subcycles (storing test on the bare counter)",
+    "C09": ("relational return summaries flag<=>status 'ACC', replace-only-on-ACC guards, copy-before-mutate provenance of frames reaching engine sinks, interval arithmetic for the shooting index, comparator-convention table, linear arithmetic on symbolic lengths (truncated extension rejected, Metropolis length budget), extension guards use the ensemble's own interfaces, no dead verdict (liveness), positional role agreement, no stale loop variables, acceptance gates of the shooting move as must-pass-through facts (kick, backward side, forward success, left touch, middle crossing), weight entries with the inclusive crossing convention, no branch on the restart tag, a rejection never returns the input path's stale status (path query over re-bindings and status stores), high-acceptance swap weights pair interfaces and move of one ensemble (monomial ratio), configuration reaches calc_cv_vector unmodified at run_md, decisions on component 0 of the order parameter, frame 0 of an in-process propagation is the starting phase point for every subcycles (storing test on the bare counter), direction flag stored before the propagation",
             "does not decide ensemble membership of accepted paths in general"),
-    "C11": ("never-between query (early 0-L rejection on the end component precedes any engine call), frame-role provenance of the crossing frames per engine level, beta/energy pairing and shape of the QuanTIS rule min(1, exp(b0 dV0 - b1 dV1)) with the job-stream draw, energies built alike in every engine, velocity reversal negates exactly the velocities, flag/status and only-when-idle (shared), budget arithmetic of the QuanTIS propagations (prefix + budget - shared frame vs the tested limit), energy column roles of reloaded paths, per-ensemble engine table from the ensemble's own configuration entry, process-wide uniqueness of trajectory file names, frame index 0 is a frame, full step budget of every engine, one energy entry per stored frame in the in-process engines (guard-set agreement of the appends with add_to_path)",
+    "C11": ("never-between query (early 0-L rejection on the end component precedes any engine call), frame-role provenance of the crossing frames per engine level, beta/energy pairing and shape of the QuanTIS rule min(1, exp(b0 dV0 - b1 dV1)) with the job-stream draw, energies built alike in every engine, velocity reversal negates exactly the velocities, flag/status and only-when-idle (shared), budget arithmetic of the QuanTIS propagations (prefix + budget - shared frame vs the tested limit), energy column roles of reloaded paths, per-ensemble engine table from the ensemble's own configuration entry, process-wide uniqueness of trajectory file names, frame index 0 is a frame, full step budget of every engine, one energy entry per stored frame in the in-process engines (guard-set agreement of the appends with add_to_path), all four high-acceptance weights computed from the paths at hand, [new, old] provenance of the paths at the zero-swap call site",
             "does not decide junction identity of frame contents at run time nor reversibility of the dynamics"),
-    "C12": ("sibling cross-check of the per-frame propagation protocol over every _propagate_from (stop rule, frame counter, same-iteration data, FIFO queues), external process life cycle incl. sign-domain evaluation of return-code tests, single velocity flip, poll loops (abstract interpretation of the final read), buffer ownership, TRR size guards, positional role agreement, frame-index truthiness, no stale loop variables, calculate_order's all-or-nothing None contract (path-sensitive), reader results carried over between polls, step budget in monomial form, calculator results redefined in every iteration that writes them, strictness of the shared stop rule (guard facts), left-over GROMACS output removed before mdrun (dominance), process-group stop of session leaders, completeness guards of the text readers (shared), storing test of the in-process engines on the bare item counter, energy appends under the storing test",
+    "C12": ("sibling cross-check of the per-frame propagation protocol over every _propagate_from (stop rule, frame counter, same-iteration data, FIFO queues), external process life cycle incl. sign-domain evaluation of return-code tests, single velocity flip, poll loops (abstract interpretation of the final read), buffer ownership, TRR size guards, positional role agreement, frame-index truthiness, no stale loop variables, calculate_order's all-or-nothing None contract (path-sensitive), reader results carried over between polls, step budget in monomial form, calculator results redefined in every iteration that writes them, strictness of the shared stop rule (guard facts), left-over GROMACS output removed before mdrun (dominance), process-group stop of session leaders, completeness guards of the text readers (shared), storing test of the in-process engines on the bare item counter, energy appends under the storing test, direction flag stored on the system before _propagate_from (dominance), velocity negation applied to the velocities finally used, box element order of the flattened matrix",
             "does not decide dynamics, external program semantics, numeric equality of orders"),
     "C13": ("completeness-guard dominance for every parse site of the text readers, position commit discipline, line-index alignment, TRR size guards with fresh file size and exact byte accounting, header-size bound from struct formats, first-iteration exploration of the block size, buffer ownership, data size of the TRR guard recomputed for every header read, seek discipline of the polling reader, TRR byte-order switch on branch facts, no resume from inside a frame (CFG path query), line completeness by the writer's layout (box line column counts)",
             "does not decide value-exact parsing"),
     "C14": ("writer/reader layout agreement for traj.txt/order.txt/energy.txt (column roles, -1 convention, sub-directory name), files written from scratch, numeric defaults by `is None`, deletion provenance (shared with C08), own-directory references, no stale loop variables, load_path adds frames by an operation that cannot refuse, per-iteration data not taken from an earlier iteration, one row per frame in every path formatter, key agreement of the moved-file table, delete queue per scheduler instance, row fields separated by construction, stateless row formatting, every step that can delete is committed",
             "does not decide numeric round trip to six decimals nor existence of files at run time"),
-    "C15": ("no-aliasing rule for Path.copy/reverse/__iadd__ and System.copy, per-frame toggle of the velocity flag (involution), structure of paste_paths (reversed backward segment, one-shot skip iff overlap, unconditional appends, append limit comparator), crossing test vs start/end classifiers on equality, interface options by `is None`, slice form of paste_paths by linear arithmetic with a case split on overlap, extremes recomputed or memoised with invalidation at every frame-list mutation, extreme taken over the reported quantity (comprehension element vs returned value), velocity flip on every returning path of reverse, default paste limit from the segments' limits, copies filled under the source path's own limit (constructor argument or dominating store)",
+    "C15": ("no-aliasing rule for Path.copy/reverse/__iadd__ and System.copy, per-frame toggle of the velocity flag (involution), structure of paste_paths (reversed backward segment, one-shot skip iff overlap, unconditional appends, append limit comparator), crossing test vs start/end classifiers on equality, interface options by `is None`, slice form of paste_paths by linear arithmetic with a case split on overlap, extremes recomputed or memoised with invalidation at every frame-list mutation, extreme taken over the reported quantity (comprehension element vs returned value), velocity flip on every returning path of reverse, default paste limit from the segments' limits, copies filled under the source path's own limit (constructor argument or dominating store), paste over local frame lists decided from reaching definitions",
             "does not decide classification vs extreme values beyond the equality convention"),
-    "C16": ("write-what-you-read provenance in every modify_velocities, fresh output file, momentum reset position, kinetic energy computed after the last velocity mutation, draws from the job stream at call time, positional role agreement, frame-index truthiness, variance clause by monomial algebra (sigma^2*beta*m = 1, beta*kB*T = 1), Boltzmann-constant table per engine unit, only the engine's unit factor between draw and writer, record (dict-shape) agreement of the ensemble dictionary, in-place behaviour of reset_momentum read from its source, old and new kinetic energy computed by the same expression, mass factor inside the momentum reduction, dtype-preserving reciprocal of integer masses, parameter-dependent re-used input files live in the per-job directory, settings table only read, positional flag literals of the writers, positions and box written come from one read of the dumped frame by a reader that does not post-process coordinates",
+    "C16": ("write-what-you-read provenance in every modify_velocities, fresh output file, momentum reset position, kinetic energy computed after the last velocity mutation, draws from the job stream at call time, positional role agreement, frame-index truthiness, variance clause by monomial algebra (sigma^2*beta*m = 1, beta*kB*T = 1), Boltzmann-constant table per engine unit, only the engine's unit factor between draw and writer, record (dict-shape) agreement of the ensemble dictionary, in-place behaviour of reset_momentum read from its source, old and new kinetic energy computed by the same expression, mass factor inside the momentum reduction, dtype-preserving reciprocal of integer masses, parameter-dependent re-used input files live in the per-job directory, settings table only read, positional flag literals of the writers, positions and box written come from one read of the dumped frame by a reader that does not post-process coordinates, box element order of the flattened matrix, label fix-up of a velocity-less GROMACS frame under an emptiness test (producer key set vs consumer membership test)",
             "does not decide the mass tables nor Gaussianity of NumPy's normal()"),
-    "C17": ("typestate of futures in the task runner (completed exactly once, task_done exactly once), delivery once, stop guards compare the step counter with the target, in-flight record emptied and persisted on every path, step arithmetic of initiate/loop/submission guard by linear counting over (c0, steps, workers), submission guard in general linear form, shutdown order of the runner (stop event only after the queue is drained), commit on every normal path of treat_output, unbounded work queue under awaited put from a throw-away loop, exception delivery precedes anything that can raise, unbounded wait for the worker tasks, per-unit outcome state (CFG path query), no commit reachable between the advance of the step counter and the consumption of that step's result (CFG reachability in REPEX_state and in the main loop, committing methods by fixpoint)",
+    "C17": ("typestate of futures in the task runner (completed exactly once, task_done exactly once), delivery once, stop guards compare the step counter with the target, in-flight record emptied and persisted on every path, step arithmetic of initiate/loop/submission guard by linear counting over (c0, steps, workers), submission guard in general linear form, shutdown order of the runner (stop event only after the queue is drained), commit on every normal path of treat_output, unbounded work queue under awaited put from a throw-away loop, exception delivery precedes anything that can raise, unbounded wait for the worker tasks, per-unit outcome state (CFG path query), no commit reachable between the advance of the step counter and the consumption of that step's result (CFG reachability in REPEX_state and in the main loop, committing methods by fixpoint), refusal test of initiate() as a half-space over (cstep, tsteps, workers, toinitiate), in-flight record per scheduler instance",
             "does not model interleavings of worker coroutines"),
-    "C18": ("validation coverage table extracted from check_config's raise guards (normalised comparisons), must-validate-before-use by dominance, idempotent-by-shape normalisation on the restart path (configuration provenance), configuration keys under one section path, no stale loop variables, iteration-space completeness of the engine-defined clause, configuration reaches calc_cv_vector whole at every call site, restart refused when any live path is missing on disk, no equal-length demand beyond check_config, every element access of the interface / move lists inside check_config dominated by the clause rejecting a list too short for it (linear index bounds)",
+    "C18": ("validation coverage table extracted from check_config's raise guards (normalised comparisons), must-validate-before-use by dominance, idempotent-by-shape normalisation on the restart path (configuration provenance), configuration keys under one section path, no stale loop variables, iteration-space completeness of the engine-defined clause, configuration reaches calc_cv_vector whole at every call site, restart refused when any live path is missing on disk, no equal-length demand beyond check_config, every element access of the interface / move lists inside check_config dominated by the clause rejecting a list too short for it (linear index bounds), engine sections looked up only for validated names",
             "does not decide that every accepted configuration initialises"),
     "C19": ("writer/reader layout agreement: g96 field widths, xyz field counts/column order/header token, lammpstrj header/column constants across four functions, TRR header/data-item tables, box element order by constant folding, reverse-velocity siblings, frame k is frame k (selectors, strides, TRR counter), regex syntax-tree agreement of the template editor/reader, buffer ownership, positional role agreement, frame addressed by a computed offset, locality of CP2K section editing (one line out per line in, plain copy), requested template entries recognised by membership, positional bool literals land on flag parameters (signature table), lammpstrj box block read whole, TRR byte-order switch, dtype form of the data decoders, whole-word placeholder substitution on the template line, case-normalised CP2K keywords, fixed-column g96 records never tokenised by blanks when the writer's float fields are adjacent, TRR data blocks unrolled over the constant key tables: decoder per block",
             "does not decide round-trip equality of values"),
